@@ -334,8 +334,18 @@ func fromCryptoRand(v ssa.Value, depth int) (bool, string) {
 	case *ssa.Extract:
 		return fromCryptoRand(x.Tuple, depth+1)
 	case *ssa.Phi:
-		for _, e := range x.Edges {
+		for k, e := range x.Edges {
 			if ok, why := fromCryptoRand(e, depth+1); !ok {
+				// the zero a helper returns next to its error (`return 0, err`, inlined): the edge
+				// is excused when a sibling error phi carries a non-nil-constant value on it and
+				// nil on the random edges; the caller's use must then sit behind `err == nil`
+				// (checked by the rule through excusedErrPhis)
+				if _, isC := e.(*ssa.Const); isC {
+					if ep := siblingErrorPhi(x, k); ep != nil {
+						excusedErrPhis[x] = append(excusedErrPhis[x], ep)
+						continue
+					}
+				}
 				return false, why
 			}
 		}
@@ -426,6 +436,37 @@ func fromCryptoRand(v ssa.Value, depth int) (bool, string) {
 	return false, "not derived from crypto/rand: " + eng.Describe(v)
 }
 
+// excusedErrPhis records, per value phi, the error phis whose non-nil edges excused a constant
+// edge in fromCryptoRand (reset by the caller before a query).
+var excusedErrPhis = map[*ssa.Phi][]*ssa.Phi{}
+
+// siblingErrorPhi: a phi of type error in the same block as p that is non-nil-constant on edge
+// k and the nil constant on at least one other edge.
+func siblingErrorPhi(p *ssa.Phi, k int) *ssa.Phi {
+	for _, in := range p.Block().Instrs {
+		q, ok := in.(*ssa.Phi)
+		if !ok {
+			break
+		}
+		if q == p || q.Type().String() != "error" || k >= len(q.Edges) {
+			continue
+		}
+		if eng.IsNilConst(q.Edges[k]) {
+			continue
+		}
+		hasNil := false
+		for j, e := range q.Edges {
+			if j != k && eng.IsNilConst(e) {
+				hasNil = true
+			}
+		}
+		if hasNil {
+			return q
+		}
+	}
+	return nil
+}
+
 // saltRule: every Key.SetSalt in production code stores a value drawn from crypto/rand.
 func saltRule(c *core.Ctx, rule string) {
 	c.Rule(rule, "every security.Key.SetSalt(x) in production code takes x from crypto/rand (rand.Int(rand.Reader, …)): the salt whitens the other blocks of a key under the v1/v3 ciphers, a constant or inherited salt lets blocks of different keys of one master be recombined", 4)
@@ -434,7 +475,16 @@ func saltRule(c *core.Ctx, rule string) {
 		for _, call := range eng.Calls(f, false, M+"security.Key.SetSalt") {
 			n++
 			a := eng.CallArgs(call.Common())
+			excusedErrPhis = map[*ssa.Phi][]*ssa.Phi{}
 			ok, why := fromCryptoRand(a[1], 0)
+			for _, eps := range excusedErrPhis {
+				for _, ep := range eps {
+					errNil := eng.EqPred("err == nil", true, func(x, y ssa.Value) bool { return x == ssa.Value(ep) && eng.IsNilConst(y) })
+					if g := eng.Guarded(call.(ssa.Instruction), errNil); !(g.Guarded && g.Edges > 0) {
+						ok, why = false, "the zero returned next to an error can reach SetSalt (the error is not tested)"
+					}
+				}
+			}
 			c.Check(ok, rule, fnName(f)+":salt is random", call.Pos(), "the salt is drawn from crypto/rand", "the salt of a new key is not drawn from crypto/rand ("+why+"): keys minted from one master then share their salt and their encrypted blocks can be spliced into each other")
 		}
 	}
